@@ -73,12 +73,16 @@ func c10HTTPURLs(set []string) []string {
 	return u
 }
 
-var c10ServerStates = []string{"down", "garbage", "badsig", "good"}
+// "stale": a genuine list whose nextUpdate passed a day ago (an issuer which is late; nothing in the property makes such
+// a list less of a list: where it is taken in it is in force, and with crl_cdp_strict off it never denies anybody it
+// does not name)
+var c10ServerStates = []string{"down", "garbage", "badsig", "good", "stale"}
 
 type c10Cast struct {
 	p             *world.PKI
 	listed, clean map[int]*world.Ident // per CDP set
 	good, badsig  []byte
+	stale         []byte
 }
 
 func newC10Cast() *c10Cast {
@@ -92,6 +96,9 @@ func newC10Cast() *c10Cast {
 	b := world.SimpleCRL(p.CA, 2, 101, 105)
 	b.BadSig = true
 	c.badsig = b.DER()
+	st := world.SimpleCRL(p.CA, 1, 101, 105)
+	st.ThisUpdate, st.NextUpdate = vsched.Epoch.Add(-48*time.Hour), vsched.Epoch.Add(-24*time.Hour)
+	c.stale = st.DER()
 	return c
 }
 
@@ -142,7 +149,7 @@ func (c *c10Cast) run(cfg c10Cfg, hist []int) (out c10Run) {
 		diskAccepted := false // disk holds a complete accepted CRL (survives restart)
 		acceptable := func(s string) bool {
 			switch s {
-			case "good":
+			case "good", "stale":
 				return true
 			case "badsig":
 				return cfg.Sig != config.SignatureValidationModeVerify
@@ -236,6 +243,8 @@ func (c *c10Cast) run(cfg c10Cfg, hist []int) (out c10Run) {
 					net.Serve(u, "badsig", c.badsig)
 				case "good":
 					net.Serve(u, "good", c.good)
+				case "stale":
+					net.Serve(u, "stale", c.stale)
 				}
 			case name == "tick":
 				vsched.Advance(w.Cfg.UpdateIntervalParsed)
